@@ -16,6 +16,9 @@ def gen_case(ctx, i, reuse=None):
     hostile = HOSTILE[i % len(HOSTILE)]
     nq = 1 if hostile == "gamma-only" else None
     natoms = 1 if hostile == "one-atom" else None
+    if reuse is not None and len(reuse) > 6:
+        # the same numbers of q-points and atoms as the earlier case, so that every array has the shape it had there
+        nq, natoms = (nq or reuse[5]), (natoms or reuse[6])
     spec = W.gen_spectrum(rng, nq=nq, natoms=natoms, hostile=hostile)
     t, v = W.gen_grids(rng, spec, hostile=hostile)
     if reuse is not None:
@@ -49,7 +52,7 @@ def run(ctx):
             rng, hostile, spec, t, v, strains, fill, calc = gen_case(ctx, i, reuse=reuse)
             if reuse is not None:
                 hostile = (hostile or "generic") + "+grid-of-previous-case"
-            prev = (spec.v0, t, v, spec.weights, strains)
+            prev = (spec.v0, t, v, spec.weights, strains, spec.nq, spec.natoms)
             pairs = [(0, 0), (1, 1), (2, 2), (0, 1), (0, 2), (1, 2)]
             nontriv_modes = spec.mask.sum() > 0
             for (a, b) in pairs:
